@@ -31,11 +31,11 @@ type Gate func(kind, key string) error
 type KV struct {
 	mu         sync.Mutex
 	base       kv.Base
-	writes     int   // number of writes seen since ResetCounters
-	FailWrite  int   // 1-based index of the write to fail, 0 = none
-	FailAllW   bool  // fail every write
-	FailLoads  bool  // fail every Load/LoadRange
-	RangeBytes int   // >0: LoadRange fails when the result exceeds this many bytes (simulates the message size limit)
+	writes     int  // number of writes seen since ResetCounters
+	FailWrite  int  // 1-based index of the write to fail, 0 = none
+	FailAllW   bool // fail every write
+	FailLoads  bool // fail every Load/LoadRange
+	RangeBytes int  // >0: LoadRange fails when the result exceeds this many bytes (simulates the message size limit)
 	Log        []Event
 	KeepLog    bool
 	gate       Gate
